@@ -2,6 +2,7 @@ import PeptVerif.Model.ModBuilder
 import PeptVerif.Spec.ModBuilder
 import Mathlib.Data.List.Nodup
 import Mathlib.Data.List.Perm.Basic
+import Mathlib.Data.List.Forall2
 import Mathlib.Algebra.Order.Group.Multiset
 /-! Helper lemmas for C13. -/
 set_option linter.unnecessarySeqFocus false
@@ -337,16 +338,6 @@ theorem applyStaticCore_skip_idem (a : Annotation) (internal nterm cterm : List 
 
 /-! ### the recursion `_apply_variable_mods_rec` -/
 
-/-- the mods written at a site by `varStep` -/
-def newVal (mode : Mode) (old : Option (List Mod)) (g : Group) : List Mod :=
-  match old with
-  | none => g
-  | some o =>
-    match mode with
-    | .append => o ++ g
-    | .overwrite => g
-    | .skip => o
-
 theorem varStep_eq_none {mode : Mode} {a : Annotation} {i : Int} {g : Group} :
     varStep mode a i g = none ↔ mode = .skip ∧ (modsAt a i).isSome = true := by
   unfold varStep hasInternalAt
@@ -471,11 +462,6 @@ theorem flatMap_const_nil {α β : Type} (l : List α) : l.flatMap (fun _ => ([]
   induction l with
   | nil => rfl
   | cons x xs ih => simp [ih]
-
-/-- the states a site may take must be pairwise different for the enumeration to be duplicate-free -/
-def SiteOK (mode : Mode) (old : Option (List Mod)) (gs : List Group) : Prop :=
-  (mode = .skip ∧ old.isSome = true) ∨
-    ((gs.map (newVal mode old)).Nodup ∧ ∀ g ∈ gs, some (newVal mode old g) ≠ old)
 
 theorem varRec_nodup (m : ModMap) (mode : Mode) (mc : Int) :
     ∀ (rem idx : Nat) (a : Annotation),
@@ -1258,6 +1244,220 @@ theorem siteOK_overwrite (old : Option (List Mod)) (gs : List Group) (h : gs.Nod
       rw [this]; exact h
     · simp only [newVal, ne_eq, Option.some.injEq]
       intro h'; exact hne o rfl (h' ▸ hg)
+
+/-! ### terminal variants, every mode -/
+
+/-- the N-terminal states (other than the current one) that `apply_variable_mods` expands -/
+def nVals (mode : Mode) (a : Annotation) (nt : List (Rule (List Group))) : List (Option (List Mod)) :=
+  (termPairs nt).filterMap fun p =>
+    let v := staticTable mode a.nterm (staticOffers [p] 0)
+    if modsEq v a.nterm then none else some v
+
+/-- the C-terminal states (other than the current one) that `apply_variable_mods` expands -/
+def cVals (mode : Mode) (a : Annotation) (ct : List (Rule (List Group))) : List (Option (List Mod)) :=
+  (termPairs ct).filterMap fun p =>
+    let v := staticTable mode a.cterm (staticOffers [p] ((a.seq.length : Int) - 1))
+    if modsEq v a.cterm then none else some v
+
+theorem nBases_eq (mode : Mode) (a : Annotation) (nt : List (Rule (List Group))) :
+    nBases mode a nt = (nVals mode a nt).map fun v => { a with nterm := v } := by
+  unfold nBases nVals
+  rw [List.map_filterMap]
+  refine List.filterMap_congr ?_
+  intro p _
+  simp only [nWith_eq, annotEq_nterm]
+  split <;> simp
+
+theorem cVariants_eq (mode : Mode) (a b : Annotation) (ct : List (Rule (List Group)))
+    (hc : b.cterm = a.cterm) (hs : b.seq = a.seq) :
+    ((termPairs ct).filterMap fun p => if annotEq (cWith mode b p) b then none else some (cWith mode b p)) =
+      (cVals mode a ct).map fun v => { b with cterm := v } := by
+  unfold cVals
+  rw [List.map_filterMap]
+  refine List.filterMap_congr ?_
+  intro p _
+  simp only [cWith_eq, annotEq_cterm]
+  rw [hc, hs]
+  split <;> simp
+
+/-- the bases are the products of terminal states (as a multiset), in every mode -/
+theorem variantBases_perm (mode : Mode) (a : Annotation) (nt ct : List (Rule (List Group))) :
+    (variantBases mode a nt ct).Perm
+      ((a.nterm :: nVals mode a nt).flatMap fun vn => (a.cterm :: cVals mode a ct).map fun vc =>
+        ({ a with nterm := vn, cterm := vc } : Annotation)) := by
+  unfold variantBases
+  rw [nBases_eq]
+  have hC : ∀ b : Annotation, b.cterm = a.cterm → b.seq = a.seq →
+      ((termPairs ct).flatMap fun p => (if annotEq (cWith mode b p) b then none else some (cWith mode b p)).toList)
+        = (cVals mode a ct).map fun v => { b with cterm := v } := by
+    intro b h1 h2
+    rw [← List.filterMap_eq_flatMap_toList]
+    exact cVariants_eq mode a b ct h1 h2
+  generalize cVals mode a ct = C' at hC
+  generalize nVals mode a nt = N'
+  generalize hNB : (N'.map fun v => ({ a with nterm := v } : Annotation)) = NB
+  have h1 : ((termPairs ct).flatMap fun p =>
+        (NB.filterMap fun nb => if annotEq (cWith mode nb p) nb then none else some (cWith mode nb p))
+        ++ (if annotEq (cWith mode a p) a then [] else [cWith mode a p])).Perm
+      ((NB.flatMap fun nb => C'.map fun v => ({ nb with cterm := v } : Annotation))
+        ++ C'.map fun v => ({ a with cterm := v } : Annotation)) := by
+    refine (List.flatMap_append_perm _ _ _).symm.trans (List.Perm.append ?_ ?_)
+    · simp only [List.filterMap_eq_flatMap_toList]
+      refine (flatMap_swap _ _ _).trans ?_
+      refine List.Perm.of_eq (List.flatMap_congr ?_)
+      intro nb hnb
+      rw [← hNB] at hnb
+      obtain ⟨g, -, rfl⟩ := List.mem_map.mp hnb
+      exact hC _ rfl rfl
+    · refine List.Perm.of_eq ?_
+      rw [← hC a rfl rfl]
+      refine List.flatMap_congr ?_
+      intro p _; split <;> simp
+  refine (List.Perm.append_left _ (List.Perm.append_right _ h1)).trans ?_
+  have h2 : ((a.nterm :: N').flatMap fun vn => (a.cterm :: C').map fun vc =>
+        ({ a with nterm := vn, cterm := vc } : Annotation)) =
+      (a :: C'.map fun v => ({ a with cterm := v } : Annotation)) ++
+        NB.flatMap fun nb => nb :: C'.map fun v => ({ nb with cterm := v } : Annotation) := by
+    rw [← hNB]
+    simp [List.flatMap_map, Function.comp_def]
+  rw [h2]
+  have h3 : (NB.flatMap fun nb => nb :: C'.map fun v => ({ nb with cterm := v } : Annotation)).Perm
+      (NB ++ NB.flatMap fun nb => C'.map fun v => ({ nb with cterm := v } : Annotation)) := by
+    have := (List.flatMap_append_perm NB (fun nb => [nb])
+      (fun nb => C'.map fun v => ({ nb with cterm := v } : Annotation))).symm
+    simpa using this
+  refine List.Perm.trans ?_ (List.Perm.append_left _ h3.symm)
+  rw [← Multiset.coe_eq_coe]
+  simp only [← Multiset.coe_add, ← Multiset.cons_coe, ← Multiset.singleton_add, Multiset.coe_nil, Multiset.add_zero]
+  ac_rfl
+
+theorem variantBases_keys_nodup (mode : Mode) (a : Annotation) (nt ct : List (Rule (List Group)))
+    (hn : (a.nterm :: nVals mode a nt).Nodup) (hc : (a.cterm :: cVals mode a ct).Nodup) :
+    ((variantBases mode a nt ct).map tkey).Nodup := by
+  refine ((variantBases_perm mode a nt ct).map tkey).nodup_iff.mpr ?_
+  rw [List.map_flatMap]
+  simp only [List.map_map, Function.comp_def, tkey]
+  exact nodup_product_map _ _ id id (by simpa using hn) (by simpa using hc)
+
+theorem staticTable_single (mode : Mode) (old : Option (List Mod)) (g : Group) :
+    staticTable mode old [g] = some (newVal mode old g) := by
+  unfold staticTable newVal
+  cases old <;> cases mode <;> simp
+
+/-- the terminal states offered by well-formed rules with pairwise different groups are pairwise different, and
+different from the current state – in every mode -/
+theorem termVals_nodup (mode : Mode) (old : Option (List Mod)) (rules : List (Rule (List Group))) (pos : Int)
+    (hg : GoodRules rules) (hd : (termOffered rules pos).Nodup) :
+    (old :: (termPairs rules).filterMap fun p =>
+      let v := staticTable mode old (staticOffers [p] pos)
+      if modsEq v old then none else some v).Nodup := by
+  -- rewrite over the offered groups
+  have hrew : ((termPairs rules).filterMap fun p =>
+        let v := staticTable mode old (staticOffers [p] pos)
+        if modsEq v old then none else some v)
+      = (termOffered rules pos).filterMap fun g =>
+          if modsEq (some (newVal mode old g)) old then none else some (some (newVal mode old g)) := by
+    unfold termOffered
+    rw [List.filterMap_filterMap]
+    refine List.filterMap_congr ?_
+    intro p hp
+    obtain ⟨r, hr, h1, h2⟩ := mem_termPairs hp
+    have hne : p.2 ≠ [] := (hg r hr).2 _ h2
+    have hnd : p.1.Nodup := h1 ▸ (hg r hr).1
+    simp only [staticOffers_single p hne hnd]
+    by_cases hpos : pos ∈ p.1
+    · simp [hpos, staticTable_single]
+    · simp [hpos, staticTable, modsEq_refl]
+  rw [hrew]
+  refine List.nodup_cons.mpr ⟨?_, ?_⟩
+  · intro hmem
+    obtain ⟨g, -, hg'⟩ := List.mem_filterMap.mp hmem
+    split at hg'
+    · simp at hg'
+    · rename_i hne
+      simp only [Option.some.injEq] at hg'
+      rw [hg'] at hne
+      exact hne (modsEq_refl _)
+  · refine List.Nodup.filterMap ?_ hd
+    intro g g' v hv hv'
+    simp only [Option.mem_def] at hv hv'
+    split at hv
+    · simp at hv
+    · rename_i hkeep
+      split at hv'
+      · simp at hv'
+      · simp only [Option.some.injEq] at hv hv'
+        have heq : newVal mode old g = newVal mode old g' := by
+          have := hv.trans hv'.symm; simpa using this
+        cases old with
+        | none => simpa [newVal] using heq
+        | some o =>
+          cases mode with
+          | skip => exact absurd (by simp [newVal, modsEq_refl]) hkeep
+          | append => simpa [newVal] using heq
+          | overwrite => simpa [newVal] using heq
+
+/-! ### what the enumeration of the specification contains -/
+
+theorem mem_sublists {α : Type} (l S : List α) : S ∈ sublists l ↔ S.Sublist l := by
+  induction l generalizing S with
+  | nil => simp [sublists]
+  | cons x r ih =>
+    simp only [sublists, List.mem_append, List.mem_map]
+    constructor
+    · rintro (⟨S', hS', rfl⟩ | h)
+      · exact ((ih S').mp hS').cons_cons x
+      · exact ((ih S).mp h).cons x
+    · intro h
+      cases h with
+      | cons _ h => exact Or.inr ((ih S).mpr h)
+      | cons_cons _ h => exact Or.inl ⟨_, (ih _).mpr h, rfl⟩
+
+theorem mem_assignments (S : List (Int × List Group)) (T : List (Int × Group)) :
+    T ∈ assignments S ↔ List.Forall₂ (fun t s => t.1 = s.1 ∧ t.2 ∈ s.2) T S := by
+  induction S generalizing T with
+  | nil => simp [assignments]
+  | cons p r ih =>
+    obtain ⟨i, gs⟩ := p
+    simp only [assignments, List.mem_flatMap, List.mem_map, List.forall₂_cons_right_iff]
+    constructor
+    · rintro ⟨g, hg, T', hT', rfl⟩
+      exact ⟨(i, g), T', ⟨rfl, hg⟩, (ih T').mp hT', rfl⟩
+    · rintro ⟨⟨i', g⟩, T', ⟨hi, hg⟩, hT', rfl⟩
+      simp only at hi hg
+      subst hi
+      exact ⟨g, hg, T', (ih T').mpr hT', rfl⟩
+
+theorem mem_eligible (a : Annotation) (rules : List (Rule (List Group))) (i : Int) (gs : List Group) :
+    (i, gs) ∈ eligible a rules ↔
+      0 ≤ i ∧ i < (a.seq.length : Int) ∧ modsAt a i = none ∧ gs = offered rules i ∧ gs ≠ [] := by
+  unfold eligible
+  simp only [List.mem_filterMap, List.mem_range]
+  constructor
+  · rintro ⟨k, hk, h⟩
+    split at h
+    · rename_i hc
+      simp only [Option.some.injEq, Prod.mk.injEq] at h
+      obtain ⟨rfl, rfl⟩ := h
+      exact ⟨by omega, by omega, hc.1, rfl, hc.2⟩
+    · simp at h
+  · rintro ⟨h0, h1, h2, rfl, h4⟩
+    refine ⟨i.toNat, by omega, ?_⟩
+    have : ((i.toNat : Nat) : Int) = i := by omega
+    rw [this]
+    simp [h2, h4]
+
+theorem mem_internalForms (a : Annotation) (rules : List (Rule (List Group))) (maxMods : Int) (x : Annotation) :
+    x ∈ internalForms a rules maxMods ↔
+      ∃ S T, S.Sublist (eligible a rules) ∧ (S.length : Int) ≤ maxMods ∧
+        List.Forall₂ (fun t s => t.1 = s.1 ∧ t.2 ∈ s.2) T S ∧ x = withChoice a T := by
+  unfold internalForms
+  simp only [List.mem_map, List.mem_flatMap, List.mem_filter, mem_sublists, mem_assignments, decide_eq_true_eq]
+  constructor
+  · rintro ⟨T, ⟨S, ⟨h1, h2⟩, h3⟩, rfl⟩
+    exact ⟨S, T, h1, h2, h3, rfl⟩
+  · rintro ⟨S, T, h1, h2, h3, rfl⟩
+    exact ⟨T, ⟨S, ⟨h1, h2⟩, h3⟩, rfl⟩
 
 /-! ### argument conversion -/
 
